@@ -190,6 +190,12 @@ func (c *FnCtx) declare(name, srt string) string {
 			}
 			c.strConsts[name] = true
 		}
+		if strings.HasPrefix(name, "HE_uint8@") {
+			// type invariant of byte arrays: every element is a byte (stores are of byte-typed values)
+			c.decls = append(c.decls, fmt.Sprintf("(declare-const %s %s)", name, srt))
+			c.decls = append(c.decls, fmt.Sprintf("(assert (forall ((r Int) (i Int)) (! (and (<= 0 (select (select %s r) i)) (<= (select (select %s r) i) 255)) :pattern ((select (select %s r) i)))))", name, name, name))
+			return name
+		}
 		c.decls = append(c.decls, fmt.Sprintf("(declare-const %s %s)", name, srt))
 	}
 	return name
@@ -611,6 +617,9 @@ func (c *FnCtx) validity(term string, t types.Type, depth int) string {
 	t = types.Unalias(t)
 	if lo, hi, ok := intRange(t); ok {
 		return and(le(lo, term), le(term, hi))
+	}
+	if basicInfo(t)&types.IsString != 0 {
+		return lt(app("slen", term), maxLenS) // values of string type (not every Str term) are bounded
 	}
 	switch tt := t.Underlying().(type) {
 	case *types.Slice:
